@@ -4,6 +4,7 @@ pub mod fault;
 pub mod node;
 pub mod props;
 pub mod rt;
+pub mod sched;
 pub mod sim;
 pub mod snap;
 pub mod truth;
